@@ -122,7 +122,18 @@ def sample_ref(family, theta, n, rs):
 def debye1(x):
     if x == 0:
         return 1.0
-    val = integrate.quad(lambda t: t / math.expm1(t) if t != 0 else 1.0, 0, x, epsabs=1e-13, epsrel=1e-13)[0]
+    def integrand(t):
+        if t == 0:
+            return 1.0
+        if t > 30:
+            return t * math.exp(-t) / (1 - math.exp(-t))
+        return t / math.expm1(t)
+
+    if x > 0:
+        # integrate the bulk on [0, min(x, 60)] (beyond that the integrand is < 1e-24)
+        val = integrate.quad(integrand, 0, min(x, 60.0), epsabs=1e-14, epsrel=1e-13, limit=200)[0]
+    else:
+        val = integrate.quad(integrand, 0, x, epsabs=1e-14, epsrel=1e-13, limit=200)[0]
     return val / x
 
 
@@ -133,8 +144,8 @@ def tau_theory(family, theta):
     if family == 'gumbel':
         return 1 - 1 / th
     if family == 'frank':
-        if abs(th) < 1e-8:
-            return th / 9.0
+        if abs(th) < 0.01:
+            return th / 9.0 - th ** 3 / 900.0 + th ** 5 / 52920.0
         return 1 - 4 / th * (1 - debye1(th))
     raise ValueError(family)
 
@@ -147,8 +158,8 @@ def theta_from_tau(family, tau):
     if family == 'frank':
         from scipy.optimize import brentq
 
-        if tau == 0:
-            return 0.0
+        if abs(tau) < 1e-6:
+            return 9.0 * tau
         sign = 1 if tau > 0 else -1
         return sign * brentq(lambda t: tau_theory('frank', t) - abs(tau), 1e-9, 800.0, xtol=1e-13)
     raise ValueError(family)
